@@ -551,6 +551,28 @@ class VTCase(unittest.TestCase):
             # a test that replaces sys.stdout and never puts it back
             sys.stdout = io.StringIO()
             return
+        if s == 'nested_fail':
+            # a test that runs the test runner itself in-process (what the
+            # runner's own tests and plug-in test suites do), then fails
+            import zope.testrunner.runner as R
+            inner = build({'layers': [], 'tests': [
+                {'n': 'in0', 's': 'pass', 'w': [['o', 'TOKin0o\n', False]]},
+                {'n': 'in1', 's': 'fail', 'w': [['o', 'TOKin1o\n', False], ['e', 'TOKin1e\n', False]]}],
+                'mod': 'vtwinner.tests'})
+            global TRACE
+            saved = (TRACE, PROBE)
+            try:
+                # the inner world's events do not belong to the outer trace
+                globals()['TRACE'] = []
+                globals()['PROBE'] = None
+                R.Runner(None, ['inner', '--buffer'] + (['-vv'] if vt.get('nv') else []),
+                         found_suites=inner.suites, script_parts=['inner'], cwd=None).run()
+            finally:
+                globals()['TRACE'], globals()['PROBE'] = saved
+            if vt.get('w2'):
+                emit('t', vt['n'], 'w2')
+                _do_writes(vt['w2'])
+            self.fail('outer test fails after the nested run')
         if s == 'chdir':
             # a test that changes the working directory and leaves it changed
             # (to an EMPTY scratch directory: a runner that resolves a relative
